@@ -62,6 +62,44 @@ CLAIMS = {
              "the two recorded finding classes is a violation.",
              technique="Lean 4 theorems (CRC-32 injectivity, frame rejection) + corruption sweep with model correspondence",
              ref="7 C09"),
+ "C04": dict(text="Proved on the worker machine for every outcome sequence: a positive callback is emitted only from the sync of the "
+             "last remaining file with every older file already synced (c04_ack_only_from_syncNew, c04_ack_means_synced: at "
+             "that moment the only files with unsynced bytes are ones whose AppendFile announcement is still queued behind the "
+             "acknowledged flush); a failed sync sends a negative callback to the whole batch and keeps the file tracked; "
+             "callbacks fire in request order, each at most once, exactly once without faults (with the model's fuel); the "
+             "coverage invariant is preserved by every call/flush/worker step. Implementation-side oracle on the interposed "
+             "trace (per-file written/synced counters) under injected EIO / short writes at every call.",
+             technique="Lean 4 invariants over the worker small-step machine + trace oracle under fault injection + correspondence",
+             ref="8 C04"),
+ "C05": dict(text="Proved: recovery never panics unless a journalled log index is u64::MAX (necessity witnessed); a record-less "
+             "newest chunk is removed and recreated with the replayed state (general multi-chunk form and single-file form). "
+             "Every legal crash image (process crash, cuts, zero fill at every caller position and worker progress) and crashes "
+             "during recovery itself must open, accept writes incl. an append, acknowledge a flush and reopen; the rotation-gap "
+             "class is a recorded finding.",
+             technique="Lean 4 decision lemmas about openStore + crash-image enumeration with model correspondence",
+             ref="8 C05"),
+ "C08": dict(text="Proved: unlinking starts only when the last sync succeeded (every listed file synced), ids are unlinked in list "
+             "order postponed ++ requested, popObsolete drops exactly a prefix whose closing last <= upto. Oracle per unlink event "
+             "on the implementation's trace: oldest first, no live entry in the chunk, a covering purge durably recorded in a "
+             "remaining file; liveness after flush+idle; under injected faults.",
+             technique="Lean 4 lemmas on the worker machine and popObsolete + trace oracle under fault injection + correspondence",
+             ref="8 C08"),
+ "C10": dict(text="Proved for all record lists and all positions: parsing encAll rs is clean; a cut inside a record yields exactly "
+             "the complete records before it with eof; a zero tail of any length m>=1 yields them with eof (m<28) or invalid "
+             "(m>=28, crc32(0^20) != 0); openChunk truncates to the last complete record iff truncation is enabled and refuses "
+             "otherwise; lifted to openStore (truncate + new chunk at the cut, explicit events and files). Sweep: every cut "
+             "position / zero tails at every boundary x both settings; oracle: exactly the complete prefix, files untouched "
+             "when refused.",
+             technique="Lean 4 theorems about parseChunk/openChunk/openStore + exhaustive cut/zero-tail sweep with correspondence",
+             ref="8 C10"),
+ "C14": dict(text="Proved: after drop the store is gone, the lock is free, the worker is dead with an empty queue (the join loop "
+             "terminates: explicit measure, and the model's fuel is sufficient for every reachable state), and any further "
+             "history without open leaves the whole system unchanged (c14_drop_quiesces_system). Oracle: no event after "
+             "`dropped`, worker not alive, the LOCK file is still held whenever the dropping store's worker issues a call "
+             "(probe), also when the store is dropped by a panic unwinding; reopen shows the acknowledged state and the new "
+             "instance purges and flushes.",
+             technique="Lean 4 termination + invariant proof for drop + gated-worker scenarios with a lock probe",
+             ref="8 C14"),
 }
 
 NOT_YET = "check not built yet (work in progress; see DESIGN.md section 8)"
